@@ -456,7 +456,8 @@ func c08Child(c *Ctx) {
 
 type c08Image struct {
 	name      string // crash point description
-	class     string
+	class     string // where the cut lies (coverage statistics)
+	cause     string // root-cause class of the crash point: part of every signature raised on this image
 	dir       string
 	completed int // last promotion that had completed when the process died
 	inflight  int // promotion in flight (-1: none)
@@ -534,8 +535,8 @@ func c08CheckDump(c *Ctx, w *c08Workload, img *c08Image, d *c08Dump, phase strin
 	var fails []string
 	fail := func(sig, detail string) {
 		fails = append(fails, sig)
-		if img.class != "" {
-			sig = sig + "/" + img.class
+		if img.cause != "" {
+			sig = sig + "/" + img.cause
 		}
 		c08Fail(c, sig, fmt.Sprintf("[%s; %s] %s", img.name, phase, detail), img.replay)
 	}
@@ -617,9 +618,9 @@ func c08ChainOracle(c *Ctx, base string) {
 
 		var images []*c08Image
 		n := 0
-		newImg := func(from string, name, class string, completed, inflight int) *c08Image {
+		newImg := func(from string, name, class, cause string, completed, inflight int) *c08Image {
 			n++
-			img := &c08Image{name: name, class: class, dir: filepath.Join(base, fmt.Sprintf("img%d_%d", wl, n)), completed: completed, inflight: inflight}
+			img := &c08Image{name: name, class: class, cause: cause, dir: filepath.Join(base, fmt.Sprintf("img%d_%d", wl, n)), completed: completed, inflight: inflight}
 			c08CopyDir(from, img.dir)
 			img.replay = map[string]interface{}{"level": "ChainDatabase", "workload": wl, "H": H, "seed": c.Seed, "crash_point": name}
 			images = append(images, img)
@@ -640,9 +641,9 @@ func c08ChainOracle(c *Ctx, base string) {
 				off = end
 			}
 			// clean: snapshot after promotion h-1 exactly as it is on disk (tmp.data still holds batch h-1: redelivery)
-			newImg(snaps[h-1], fmt.Sprintf("after promotion %d completed (tmp.data still holds its batch)", h-1), "clean", h-1, -1)
+			newImg(snaps[h-1], fmt.Sprintf("after promotion %d completed (tmp.data still holds its batch)", h-1), "clean", "redelivery-of-applied-batch", h-1, -1)
 			// crash inside emptyFile: tmp.data removed, not yet recreated
-			im := newImg(snaps[h-1], fmt.Sprintf("promotion %d: tmp.data removed by emptyFile, not yet recreated", h), "wal-removed", h-1, h)
+			im := newImg(snaps[h-1], fmt.Sprintf("promotion %d: tmp.data removed by emptyFile, not yet recreated", h), "wal-removed", "wal-removed-not-recreated", h-1, h)
 			os.Remove(filepath.Join(im.dir, "tmp.data"))
 			for j, r := range recs {
 				cuts := []struct {
@@ -663,7 +664,21 @@ func c08ChainOracle(c *Ctx, base string) {
 					if ct.off == len(batch) {
 						class = "batch-durable-pointer-not-moved"
 					}
-					im := newImg(snaps[h-1], fmt.Sprintf("promotion %d: tmp.data append cut at byte %d of %d (record %d of %d, %s)", h, ct.off, len(batch), j+1, len(recs), class), class, h-1, h)
+					// root cause = how many records of the batch are completely (head + body) in the file
+					complete := 0
+					for _, rp := range recs {
+						if ct.off >= rp.start+18+rp.body {
+							complete++
+						}
+					}
+					cause := "batch-torn-between-records"
+					switch {
+					case complete == 0:
+						cause = "first-record-of-batch-torn"
+					case complete == len(recs):
+						cause = "batch-durable-pointer-not-moved"
+					}
+					im := newImg(snaps[h-1], fmt.Sprintf("promotion %d: tmp.data append cut at byte %d of %d (inside record %d of %d: %s; %d of %d records complete)", h, ct.off, len(batch), j+1, len(recs), class, complete, len(recs)), class, cause, h-1, h)
 					os.WriteFile(filepath.Join(im.dir, "tmp.data"), batch[:ct.off], 0644)
 					im.replay["cut"] = ct.off
 					im.replay["batch_len"] = len(batch)
@@ -673,16 +688,16 @@ func c08ChainOracle(c *Ctx, base string) {
 			newCtx, _ := os.ReadFile(filepath.Join(snaps[h], "context.data"))
 			oldCtx, _ := os.ReadFile(filepath.Join(snaps[h-1], "context.data"))
 			if len(newCtx) != len(oldCtx) && len(oldCtx) >= 14 {
-				im := newImg(snaps[h], fmt.Sprintf("promotion %d: context.data rewritten in place, crash after the head write (new length %d, old body %d)", h, len(newCtx), len(oldCtx)), "context-head-only", h, -1)
+				im := newImg(snaps[h], fmt.Sprintf("promotion %d: context.data rewritten in place, crash after the head write (new length %d, old body %d)", h, len(newCtx), len(oldCtx)), "context-head-only", "context-rewritten-in-place", h, -1)
 				mixed := append(append([]byte{}, newCtx[:14]...), oldCtx[14:]...)
 				os.WriteFile(filepath.Join(im.dir, "context.data"), mixed, 0644)
-				im2 := newImg(snaps[h], fmt.Sprintf("promotion %d: context.data body write torn in the middle of the new candidate slot", h), "context-body-torn", h, -1)
+				im2 := newImg(snaps[h], fmt.Sprintf("promotion %d: context.data body write torn in the middle of the new candidate slot", h), "context-body-torn", "context-rewritten-in-place", h, -1)
 				os.WriteFile(filepath.Join(im2.dir, "context.data"), newCtx[:len(oldCtx)+20], 0644)
 				// body torn inside the 8-byte {Pos,Len} prefix of the last 64-byte candidate slot
 				nslots := (len(newCtx) - 22) / 64
 				if nslots >= 1 {
 					cut := 22 + 64*(nslots-1) + 2
-					im3 := newImg(snaps[h], fmt.Sprintf("promotion %d: context.data body write torn at byte %d of %d (inside the position prefix of candidate slot %d)", h, cut, len(newCtx), nslots), "context-slot-torn", h, -1)
+					im3 := newImg(snaps[h], fmt.Sprintf("promotion %d: context.data body write torn at byte %d of %d (inside the position prefix of candidate slot %d)", h, cut, len(newCtx), nslots), "context-slot-torn", "context-rewritten-in-place", h, -1)
 					os.WriteFile(filepath.Join(im3.dir, "context.data"), newCtx[:cut], 0644)
 				}
 			}
@@ -691,7 +706,7 @@ func c08ChainOracle(c *Ctx, base string) {
 		fresh := filepath.Join(base, "fresh")
 		os.MkdirAll(fresh, 0755)
 		os.WriteFile(filepath.Join(fresh, "context.data"), nil, 0644)
-		imf := newImg(fresh, "first start: context.data created by createFile, crash before the first Flush", "context-empty", -1, -1)
+		imf := newImg(fresh, "first start: context.data created by createFile, crash before the first Flush", "context-empty", "context-created-not-flushed", -1, -1)
 		_ = imf
 		os.RemoveAll(fresh)
 
@@ -728,12 +743,12 @@ func c08ChainOracle(c *Ctx, base string) {
 			r := results[i]
 			if r.out == nil {
 				c.Count("chain:" + img.class + ":process-died")
-				c08Fail(c, "c08/reopen-crash/"+img.class, fmt.Sprintf("[%s] the process reopening the data directory dies: %s", img.name, r.die), img.replay)
+				c08Fail(c, "c08/reopen-crash/"+img.cause, fmt.Sprintf("[%s] the process reopening the data directory dies: %s", img.name, r.die), img.replay)
 				continue
 			}
 			if r.out.OpenPanic != "" {
 				c.Count("chain:" + img.class + ":reopen-panic")
-				c08Fail(c, "c08/reopen-panic/"+img.class, fmt.Sprintf("[%s] NewChainDataBase panics: %s", img.name, r.out.OpenPanic), img.replay)
+				c08Fail(c, "c08/reopen-panic/"+img.cause, fmt.Sprintf("[%s] NewChainDataBase panics: %s", img.name, r.out.OpenPanic), img.replay)
 				continue
 			}
 			maxSt := img.completed
@@ -746,7 +761,7 @@ func c08ChainOracle(c *Ctx, base string) {
 				for _, s := range r.out.Cont {
 					if !strings.HasSuffix(s, ":ok/ok") {
 						fails = append(fails, "c08/restart-rejects-block")
-						c08Fail(c, "c08/restart-rejects-block/"+img.class, fmt.Sprintf("[%s] restarted node (stable %d) re-applies the workload's next blocks: %v — the continuous node accepted all of them", img.name, r.out.First.Stable, r.out.Cont), img.replay)
+						c08Fail(c, "c08/restart-rejects-block/"+img.cause, fmt.Sprintf("[%s] restarted node (stable %d) re-applies the workload's next blocks: %v — the continuous node accepted all of them", img.name, r.out.First.Stable, r.out.Cont), img.replay)
 						break
 					}
 				}
